@@ -40,6 +40,8 @@ Definition provides (r : reg) : list (ty * nat * grp * nat) :=
 Definition provides_b (r : reg) (t : ty) (n : nat) (g : grp) (out : nat) : bool :=
   existsb (fun '(t', n', g', o') => (t =? t') && (n =? n') && (g =? g') && (out =? o')) (provides r).
 
+(* a name next to a group on one dependency is ignored *)
+Definition dep_name (d : dep) : nat := if d_group d =? 0 then d_name d else 0.
 (* instance i is a legitimate answer to a request for (t, name n, group g) *)
 Definition produced_for (rs : list reg) (i : inst) (t : ty) (n : nat) (g : grp) : bool :=
   match i with
@@ -66,7 +68,9 @@ Definition arg_ok (rs : list reg) (lenient : bool) (p : param) (a : aval) : bool
   | PSkip, _ => false
   | PDep d, AZero =>
       (* only an optional dependency may stay zero, and only when nothing is registered for it *)
-      d_opt d && (lenient || negb (existsb (fun r => existsb (fun '(t, n, g, _) => (t =? d_ty d) && (n =? d_name d) && (g =? d_group d)) (provides r)) rs))
+      (d_opt d && (lenient || negb (existsb (fun r => existsb (fun '(t, n, g, _) => (t =? d_ty d) && (n =? dep_name d) && (g =? d_group d)) (provides r)) rs)))
+      (* or the providing constructor leaves exactly that output nil *)
+      || ((d_group d =? 0) && existsb (fun r => existsb (fun '(t, n, g, k) => (t =? d_ty d) && (n =? d_name d) && (g =? 0) && out_is_nil r k) (provides r)) rs)
   | PDep d, AInst i => (d_group d =? 0) && produced_for rs i (d_ty d) (d_name d) 0
   | PDep d, AList l => negb (d_group d =? 0) && forallb (fun i => produced_for rs i (d_ty d) 0 (d_group d)) l
                        && group_in_order rs (d_ty d) (d_group d) l
@@ -414,7 +418,7 @@ Definition step_C04_produced (ms : mstate) (o : op) (s : list event * result) : 
 
 (* ================================================================ the dependency relation, read off the registrations *)
 Definition dep_matches (d : dep) (r' : reg) : bool :=
-  existsb (fun '(t, n, g, _) => (t =? d_ty d) && (n =? d_name d) && (g =? d_group d)) (provides r').
+  existsb (fun '(t, n, g, _) => (t =? d_ty d) && (n =? dep_name d) && (g =? d_group d)) (provides r').
 Definition spec_succ (rs : list reg) (i : nat) : list nat :=
   match nth_error rs i with
   | None => []
@@ -442,7 +446,7 @@ Definition members_of (rs : list reg) (t : ty) (g : grp) : list reg :=
   filter (fun r => existsb (fun '(t', _, g', _) => (t' =? t) && (g' =? g)) (provides r)) rs.
 Definition ident_succ (rs : list reg) (n : ident) : list ident :=
   let '(t, k, g) := n in
-  let deps_of_reg r := map (fun d => (d_ty d, name_key (d_name d), d_group d)) (reg_deps r) in
+  let deps_of_reg r := map (fun d => (d_ty d, name_key (dep_name d), d_group d)) (reg_deps r) in
   match k with
   | KIdx i => match nth_error (members_of rs t g) (i - 1) with Some r => deps_of_reg r | None => [] end
   | KNone =>
@@ -525,7 +529,7 @@ Definition step_C04 (ms : mstate) (o : op) (s : list event * result) : bool :=
   match o with
   | OResolve p _ t n =>
       negb (unexplained_failure s) ||
-      negb (existsb (fun r => existsb (fun '(t', n', g', _) => (t' =? t) && (n' =? n) && (g' =? 0)) (provides r)) (regs_for ms p))
+      negb (existsb (fun r => existsb (fun '(t', n', g', k) => (t' =? t) && (n' =? n) && (g' =? 0) && negb (out_is_nil r k)) (provides r)) (regs_for ms p))
   | OResolveGroup p _ t g => (t =? T_NIL) || (g =? 0) || negb (unexplained_failure s)
   | OBuild _ =>
       let rs := ms_active ms in
